@@ -119,6 +119,35 @@ CLAIMS = {
             "regenerated statements. Also: FortranParser.put_item pushes to the front of the reader's queue; tokenised text reaches a printed attribute only with the replace map undone (85 process_item methods, 26 reasoned name/label positions); the item of a statement embedded in a one-line IF/WHERE/FORALL is a label-free copy; fixed-form label field within columns 1-5 (table). Further: no blank squeezing / case folding after the replace map is undone.", "DESIGN.md §4 C19"),
 }
 
+# texts of rules added after the table above was written (appended to 'text')
+ADDENDA = {
+    "C01": "Later additions: the free-form continuation decision table (shared with C04.R8, now with label/construct-name extraction "
+           "interpreted from the source and blank-line rows); DATA/NAMELIST/COMMON/DIMENSION list-statement matchers decided as tables (37 rows).",
+    "C02": "Later additions: continuation decision table (C02.R19); list-statement matcher tables with the re-assembly invariant (C02.R20).",
+    "C03": "Later additions: BinaryOpBase.match decided as a table of 26 rows (operands ending in a dot, excluded operators, split side).",
+    "C04": "Later additions: continuation rows for lines that begin with digits / name: (never a label or construct name) and blank lines.",
+    "C05": "Later additions: fixed-form continuation table (R9), inline-comment table (R10), and no memoised function on the "
+           "format-detection / reading path reads the file system (R11, 83 functions).",
+    "C06": "Later additions: accessor indices within matcher arity (R19, 176 sites); block engine addresses the opening statement by "
+           "start_idx (R20); no dereference on a path on which the variable is None for certain (R21, path-sensitive, 40 functions, 1 reviewed exception).",
+    "C07": "Later additions: definite-None dereference on clean-up paths (R10); the statement ends where the continuation table says (R11).",
+    "C08": "Later additions: only Program.match's end-of-input probe may call reader.next() inside the parser (R13, who-may-call).",
+    "C09": "Later additions: no instance attribute mutated in place is bound to a module/class-level mutable or mutable default "
+           "(R11, 24 bindings); the table registry is wiped as a whole only by ParserFactory.create (R12).",
+    "C11": "Later additions: a strict_order block lists only comment-absorbing parts (R11).",
+    "C12": "Later additions: physical lines are newline-terminated lines only (R9, shared with C07.R5).",
+    "C13": "Later additions: block engine addresses the opening statement by start_idx with includes collected before it (R6); the default "
+           "include path is per reader, never a shared mutable (R7).",
+    "C14": "Later additions: handle_cpp_directive interpreted in free, fixed and strict fixed form, with and without indentation of '#'.",
+    "C15": "Later additions: OMP continuation decision table incl. lines that continue an open character literal (R5).",
+    "C16": "Later additions: the loops recording declared entities and ONLY-list names are total (R9: per-iteration must-pass-through, no break/return).",
+    "C17": "Later additions: a 2008 matcher that re-calls the generic engine passes the 2003 matcher's option flags (R9c); 2008 printers "
+           "agree with the 2003 printers on every concrete 2003 result pattern (R13, both printers interpreted).",
+    "C18": "Later additions: no attribute hook reading instance state and no immutable-builtin subclass whose __new__ cannot take the plain "
+           "value on any class reachable from a tree (R7, 535 classes).",
+    "C19": "Later additions: fparser1 length/kind selector helpers decided as tables (R12, 46 rows; found and fixed F44).",
+}
+
 NA = {
     "C20": "bounds a run-time count (rule-constructor calls as a function of input size); no sound static complexity argument for a "
            "backtracking string-splitting parser is in reach, and the only structural handle would be a frozen source fragment",
@@ -133,6 +162,8 @@ def main():
         pid = p["id"]
         if pid in CLAIMS and os.path.exists(os.path.join(VERIF, "rules", pid + ".py")):
             tech, text, ref = CLAIMS[pid]
+            if pid in ADDENDA:
+                text = text + " " + ADDENDA[pid]
             checks.append({
                 "property_id": pid,
                 "quick_cmd": "./check %s --tier quick" % pid,
